@@ -60,52 +60,103 @@ Definition pop (b : block) (st : cstate) : cstate :=
   | BTry => st
   end.
 
-Definition no_kwargs : kwargs := mkKw (fun _ => None) None [].
-Definition env_kwargs (e : option oval) : kwargs :=
-  mkKw (fun o => match o with Env => e | _ => None end) None [].
+(** How the context managers guard their clean-up.  [cd] and [prefix] are written
+    [push; try: yield; finally: pop]: the clean-up runs however the body is left.
+    ([CExceptException] -- clean-up in an [except Exception: ...; raise] / [else:]
+    pair -- is what they are NOT; it is here so that the restoration theorem is a
+    statement about the clause the code uses, not about the shape of [exec].) *)
+Inductive clause := CFinally | CExceptException.
 
-Definition do_run (cc : ctxcfg) (st : cstate) (cmd : string) : call :=
-  o_started (run_model (cc_run cc) (cc_parent cc) (prefix_commands st cmd) no_kwargs).
+Definition cleanup_runs (cl : clause) (x : option xkind) : bool :=
+  match cl, x with
+  | CFinally, _ => true
+  | CExceptException, None => true
+  | CExceptException, Some k => is_exception k
+  end.
 
-Definition do_sudo (cc : ctxcfg) (st : cstate) (cmd : string)
-           (user_kw env_kw : option oval) : call :=
+Definition clause_of (b : block) : clause := CFinally.
+
+(** What a [run] raises: the refusal of its options, or UnexpectedExit when the
+    command was really run to its end ([_finish]), exited non-zero and warn is off. *)
+Definition run_raises (out : outcome) (fails : bool) : option xkind :=
+  match o_exc out with
+  | Some EType => Some XType
+  | Some EValue => Some XValue
+  | Some _ => Some XBoom
+  | None =>
+      match o_started out, o_kind out, o_res out with
+      | Some _, RResult, Some r =>
+          if fails && negb (truthy (r_opts r Warn)) then Some XUnexpected else None
+      | _, _, _ => None
+      end
+  end.
+
+(** [Context._run]: prefix, then [runner.run(command, **kwargs)] *)
+Definition do_run (cc : ctxcfg) (st : cstate) (cmd : string) (k : kwargs) : outcome :=
+  run_model (cc_run cc) (cc_parent cc) (prefix_commands st cmd) k.
+
+(** [Context._sudo]: user and password are popped, [env] is only looked at; everything
+    else travels on to [runner.run]. *)
+Definition do_sudo (cc : ctxcfg) (st : cstate) (cmd : string) (user_kw : option oval)
+           (k : kwargs) : outcome :=
   let user := match user_kw with Some u => u | None => cc_user cc end in
-  let env := match env_kw with
+  let env := match kw k Env with
              | Some ONone | None => cfg_run (cc_run cc) Env
              | Some e => e
              end in
-  o_started (run_model (cc_run cc) (cc_parent cc)
-                       (sudo_command (cc_prompt cc) user env (prefix_commands st cmd))
-                       (env_kwargs env_kw)).
+  run_model (cc_run cc) (cc_parent cc)
+            (sudo_command (cc_prompt cc) user env (prefix_commands st cmd)) k.
 
-(** (state afterwards, calls made, an exception is propagating) *)
-Fixpoint exec (cc : ctxcfg) (s : stmt) (st : cstate) {struct s} : cstate * list call * bool :=
+(** [watchers = list(kwargs.pop("watchers", self.config.run.watchers))]: an explicit
+    [watchers=None] is not "not given" here -- [list(None)] raises TypeError before
+    the runner is reached (F-C15b). *)
+Definition sudo_refuses (k : kwargs) : bool :=
+  match kw k Watchers with Some ONone => true | _ => false end.
+
+(** [exec_with cl]: (state afterwards, what [start] received call by call, the
+    exception propagating).  [cl] says how each kind of block guards its clean-up. *)
+Fixpoint exec_with (cl : block -> clause) (cc : ctxcfg) (s : stmt) (st : cstate) {struct s}
+  : cstate * list call * option xkind :=
   match s with
-  | SRun cmd => (st, [do_run cc st cmd], false)
-  | SSudo cmd u e => (st, [do_sudo cc st cmd u e], false)
-  | SRaise => (st, [], true)
+  | SRun cmd k fails =>
+      let out := do_run cc st cmd k in (st, [o_started out], run_raises out fails)
+  | SSudo cmd u k fails =>
+      if sudo_refuses k then (st, [None], Some XType)
+      else let out := do_sudo cc st cmd u k in (st, [o_started out], run_raises out fails)
+  | SRaise x => (st, [], Some x)
   | SBlock b body =>
       let '(st2, out, r) :=
-        (fix go (l : list stmt) (st : cstate) {struct l} : cstate * list call * bool :=
+        (fix go (l : list stmt) (st : cstate) {struct l} : cstate * list call * option xkind :=
            match l with
-           | [] => (st, [], false)
+           | [] => (st, [], None)
            | x :: l' =>
-               let '(st', o, r) := exec cc x st in
-               if r then (st', o, true)
-               else let '(st'', o', r') := go l' st' in (st'', o ++ o', r')
+               let '(st', o, r) := exec_with cl cc x st in
+               match r with
+               | Some _ => (st', o, r)
+               | None => let '(st'', o', r') := go l' st' in (st'', o ++ o', r')
+               end
            end) body (push b st) in
-      (* finally: pop; a try block swallows the exception *)
-      (pop b st2, out, match b with BTry => false | _ => r end)
+      match b with
+      | BTry => (st2, out, None)          (* the harness's try: catches everything *)
+      | _ => (if cleanup_runs (cl b) r then pop b st2 else st2, out, r)
+      end
   end.
 
-Fixpoint exec_list (cc : ctxcfg) (l : list stmt) (st : cstate) : cstate * list call * bool :=
+Fixpoint exec_list_with (cl : block -> clause) (cc : ctxcfg) (l : list stmt) (st : cstate)
+  : cstate * list call * option xkind :=
   match l with
-  | [] => (st, [], false)
+  | [] => (st, [], None)
   | x :: l' =>
-      let '(st', o, r) := exec cc x st in
-      if r then (st', o, true)
-      else let '(st'', o', r') := exec_list cc l' st' in (st'', o ++ o', r')
+      let '(st', o, r) := exec_with cl cc x st in
+      match r with
+      | Some _ => (st', o, r)
+      | None => let '(st'', o', r') := exec_list_with cl cc l' st' in (st'', o ++ o', r')
+      end
   end.
+
+(** the code in /repo *)
+Definition exec := exec_with clause_of.
+Definition exec_list := exec_list_with clause_of.
 
 Definition c0 : cstate := mkC [] [].
 Definition run_program (cc : ctxcfg) (prog : list stmt) := exec_list cc prog c0.
